@@ -155,7 +155,7 @@ fn legal_name(mut n: GName) -> GName {
     n
 }
 
-fn legalize_data(d: GData) -> GData {
+pub(super) fn legalize_data(d: GData) -> GData {
     match d {
         GData::Dn(n) => GData::Dn(legal_name(n)),
         GData::Soa(a, b, v) => GData::Soa(legal_name(a), legal_name(b), v),
